@@ -70,6 +70,13 @@ def totalPeer (w : World) : Bytes := (w.past.reverse).flatten ++ w.peerGot
 structure Sess where
   w : World := {}
   detail : Bool := false
+  building : List Conn := []     -- connections being set up: most recent first, each with its segs most recent first
+
+/-- move the connections collected by `conn`/`seg` lines into the world (in order) -/
+def Sess.finalize (s : Sess) : Sess :=
+  if s.building.isEmpty then s else
+  let cs := s.building.reverse.map fun c => { c with segs := c.segs.reverse }
+  { s with w := { s.w with conns := s.w.conns ++ cs }, building := [] }
 
 def parseCb (s : String) : CbMode :=
   if s == "count" then .count else if s == "raise" then .raise else .none
@@ -145,15 +152,13 @@ def stepSess (s : Sess) (toks : List String) : Sess × String :=
     let c : Conn := { dt := Int.ofNat (getNat r "dt"), writeNone := getFlag r "wnone", connectFails := getFlag r "cfail",
                       frags := parseNatList ((kv r "frags").getD ""), ofrags := parseNatList ((kv r "ofrags").getD ""),
                       faults := (((kv r "faults").getD "").splitOn ",").filterMap parseFault }
-    ({ s with w := { s.w with conns := s.w.conns ++ [c] } }, "ok")
+    ({ s with building := c :: s.building }, "ok")
   | ["seg", need, hex] =>
     match need.toNat?, fromHex hex with
     | some n, some bs =>
-      match s.w.conns.reverse with
+      match s.building with
       | [] => (s, "bad-op")
-      | c :: rest =>
-        let c' := { c with segs := c.segs ++ [⟨n, bs⟩] }
-        ({ s with w := { s.w with conns := (c' :: rest).reverse } }, "ok")
+      | c :: rest => ({ s with building := { c with segs := ⟨n, bs⟩ :: c.segs } :: rest }, "ok")
     | _, _ => (s, "bad-op")
   | ["file", id, hex] =>
     match id.toNat?, fromHex hex with
@@ -176,7 +181,7 @@ def stepSess (s : Sess) (toks : List String) : Sess × String :=
     let w := if (kv r "maxdata").isSome then { w with maxdata := getNat r "maxdata" } else w
     let w := if (kv r "avail").isSome then { w with available := getFlag r "avail" } else w
     ({ s with w := w }, "ok")
-  | "op" :: r => runOpLine s r
+  | "op" :: r => runOpLine s.finalize r
   | _ => (s, "bad-op")
 
 end Drv
